@@ -2,13 +2,14 @@ package main
 
 import (
 	"fmt"
-	"sync"
 	"go/constant"
 	"go/token"
 	"go/types"
-	"sort"
+	"os"
 	"regexp"
+	"sort"
 	"strings"
+	"sync"
 
 	"golang.org/x/tools/go/ssa"
 )
@@ -24,11 +25,11 @@ type Obligation struct {
 	MustSat  bool // cover: the query (goal, un-negated) must be satisfiable
 	Inputs   []InputTerm
 	// results
-	Verdict string // discharged | refuted | undecided
-	Solver  string
-	TimeS   float64
-	Model   map[string]string
-	Raw     string
+	Verdict  string // discharged | refuted | undecided
+	Solver   string
+	TimeS    float64
+	Model    map[string]string
+	Raw      string
 	replayed bool
 }
 
@@ -53,44 +54,44 @@ type deferred struct {
 
 // FnCtx: everything about the VC generation of one function.
 type FnCtx struct {
-	g          *Gen
-	fn         *ssa.Function
-	name       string
-	q          *Query
-	con        *Contract
-	vals       map[ssa.Value]Val
-	entry      *State
-	exitStates map[*ssa.BasicBlock]*State
-	edgeConds  map[*ssa.BasicBlock][]string
-	obls       []*Obligation
-	oblNames   map[string]int
-	abstracted map[string]bool
-	written    map[string]bool
-	localObjs  []*localObj
-	epochCtr   int
-	ghostSort  map[string]string
-	ghostInit  map[string]string
+	g           *Gen
+	fn          *ssa.Function
+	name        string
+	q           *Query
+	con         *Contract
+	vals        map[ssa.Value]Val
+	entry       *State
+	exitStates  map[*ssa.BasicBlock]*State
+	edgeConds   map[*ssa.BasicBlock][]string
+	obls        []*Obligation
+	oblNames    map[string]int
+	abstracted  map[string]bool
+	written     map[string]bool
+	localObjs   []*localObj
+	epochCtr    int
+	ghostSort   map[string]string
+	ghostInit   map[string]string
 	sawHavocAll bool
-	loops      []*loopInfo
-	loopOf     map[*ssa.BasicBlock]*loopInfo // header -> loop
-	backEdge   map[[2]int]bool
-	defers     []deferred
-	params     map[string]Val
-	paramTypes map[string]types.Type
-	returns    []retPoint
-	inputs     []InputTerm
-	curBlock   *ssa.BasicBlock
-	curInstr   ssa.Instruction
-	safetyOn   bool
-	dupSafe    map[string]bool
-	err        error
-	trustedSet map[string]bool
-	assertSyms [][]string
-	assertDefs [][]string
-	recSyms    map[string][]string
-	symIndex   map[string][]int
-	symIndexed int
-	sliceMu    sync.Mutex
+	loops       []*loopInfo
+	loopOf      map[*ssa.BasicBlock]*loopInfo // header -> loop
+	backEdge    map[[2]int]bool
+	defers      []deferred
+	params      map[string]Val
+	paramTypes  map[string]types.Type
+	returns     []retPoint
+	inputs      []InputTerm
+	curBlock    *ssa.BasicBlock
+	curInstr    ssa.Instruction
+	safetyOn    bool
+	dupSafe     map[string]bool
+	err         error
+	trustedSet  map[string]bool
+	assertSyms  [][]string
+	assertDefs  [][]string
+	recSyms     map[string][]string
+	symIndex    map[string][]int
+	symIndexed  int
+	sliceMu     sync.Mutex
 }
 
 type retPoint struct {
@@ -100,12 +101,13 @@ type retPoint struct {
 }
 
 type loopInfo struct {
-	header  *ssa.BasicBlock
-	blocks  map[*ssa.BasicBlock]bool
-	ordinal int
-	entrySt *State // merged state at loop entry (before havoc)
-	headSt  *State // state after havoc + invariant
+	header           *ssa.BasicBlock
+	blocks           map[*ssa.BasicBlock]bool
+	ordinal          int
+	entrySt          *State              // merged state at loop entry (before havoc)
+	headSt           *State              // state after havoc + invariant
 	writtenLocalObjs map[*ssa.Alloc]bool // struct-valued locals the loop body stores into
+	compiledInv      map[*Clause]bool    // frame invariants turned into the loop-head havoc
 }
 
 func (fc *FnCtx) abstract(what string) { fc.abstracted[what] = true }
@@ -339,7 +341,15 @@ func (fc *FnCtx) typeInvFormula(c string, t types.Type, bound string) string {
 			return fmt.Sprintf("(and (<= %s %s) (<= %s %s))", lo, c, c, hi)
 		}
 	case sSlice:
-		return fmt.Sprintf("(and (<= 0 (slen %s)) (<= (slen %s) (scap %s)) (<= (rbase (sarr %s)) %s) (<= 0 (rbase (sarr %s))) (<= 0 (roff (sarr %s))) (=> (= (rbase (sarr %s)) 0) (and (= (scap %s) 0) (= (roff (sarr %s)) 0))))", c, c, c, c, bound, c, c, c, c, c)
+		f := fmt.Sprintf("(and (<= 0 (slen %s)) (<= (slen %s) (scap %s)) (<= (rbase (sarr %s)) %s) (<= 0 (rbase (sarr %s))) (<= 0 (roff (sarr %s))) (=> (= (rbase (sarr %s)) 0) (and (= (scap %s) 0) (= (roff (sarr %s)) 0))))", c, c, c, c, bound, c, c, c, c, c)
+		// allocation typing: the backing array of a []T (T a named struct) is an allocation of T's (or of a struct that
+		// holds T's by value), like the target of a *T
+		if st, ok := t.Underlying().(*types.Slice); ok {
+			if rt := fc.g.rootTypeConstraint("(sarr "+c+")", st.Elem()); rt != "" {
+				f = and(f, implies(not(eq("(sarr "+c+")", "nilref")), rt))
+			}
+		}
+		return f
 	case sRef:
 		f := fmt.Sprintf("(and (<= 0 (rbase %s)) (<= (rbase %s) %s) (<= 0 (roff %s)) (=> (= (rbase %s) 0) (= (roff %s) 0)))", c, c, bound, c, c, c)
 		if pt, ok := t.Underlying().(*types.Pointer); ok {
@@ -907,6 +917,24 @@ func (fc *FnCtx) enterLoop(li *loopInfo, st *State) {
 	}
 	st.nonnil = map[string]bool{}
 	st.young = map[string]string{}
+	// a frame invariant is compiled into the havoc itself
+	li.compiledInv = map[*Clause]bool{}
+	if !top && os.Getenv("GOVC_NOFRAMECOMPILE") == "" {
+		for _, c := range invs {
+			if c.Expr.Op == "call" && c.Expr.Name == "unchangedOutside" {
+				henv := fc.selfEnv(fc.entry, st, nil)
+				henv.loopEntry = li.entrySt
+				var as []string
+				for a := range arrs {
+					as = append(as, a)
+				}
+				if fc.compileFrame(henv, c.Expr, as) {
+					li.compiledInv[c] = true
+				}
+				break
+			}
+		}
+	}
 	// phis of the header are havocked in execBlock; assume invariants after phis are defined
 	li.headSt = st
 }
@@ -945,6 +973,9 @@ func (fc *FnCtx) assumeLoopInv(li *loopInfo, st *State) {
 	env := fc.selfEnv(fc.entry, st, nil)
 	env.loopEntry = li.entrySt
 	for _, c := range fc.con.LoopInv[li.ordinal] {
+		if li.compiledInv[c] {
+			continue
+		}
 		t, err := fc.evalBool(env, c.Expr)
 		if err != nil {
 			fc.err = fmt.Errorf("%s: loop %d invariant %q: %v", fc.name, li.ordinal, c.Text, err)
